@@ -77,6 +77,16 @@ def check_run_order(ctx, R="C12.order"):
         elif i1 == i2 and n1 != n2:
             ok = False
             ctx.finding(R, body[i2], f"order {n2} merged with {n1}", f"Simulation._run: `{n1}` and `{n2}` are in the same statement")
+    # the step limit: the run stops at the start of the step whose number equals the limit (currentTime >= maxSteps)
+    maxp = fn.args.args[2].arg
+    lim = [s for s in body if isinstance(s, ast.If) and maxp in lib.names_loaded(s.test) and any(isinstance(x, ast.Return) for x in s.body)]
+    if lim:
+        conj = lim[0].test.values if isinstance(lim[0].test, ast.BoolOp) and isinstance(lim[0].test.op, ast.And) else [lim[0].test]
+        if any(lib.ctext(c) == lib.ctext_of(f"self.currentTime >= {maxp}") for c in conj):
+            ctx.ok(R, lim[0], f"step limit: the run ends when currentTime >= {maxp} (exactly {maxp} steps are executed)")
+        else:
+            ok = False
+            ctx.finding(R, lim[0], "step limit comparison", f"Simulation._run tests `{unparse(lim[0].test)}` for the step limit; a run of N steps must end when currentTime >= N (one step more or fewer otherwise)")
     if ok:
         ctx.ok(R, loops[0], "main loop: " + " -> ".join(n for n, _ in landmarks))
     # nothing after updateObjects in the loop body and no early `continue`
